@@ -106,6 +106,15 @@ def gen_macro_case(rng, cid, nmac):
     defs = []
     pool = ['N%d' % i for i in range(200)] + ['MAX', 'MIN', 'A', 'B', 'AB', 'val', 'x1', '_u']
     rng.shuffle(pool)
+    if rng.random() < 0.3:
+        # names without any letter (the sprite-table idiom `#define _ 0`), used on lines without any letter
+        front = ['_', '__', '_0', '_1', '__2']
+        rng.shuffle(front)
+        pool = front[:rng.randrange(1, 4)] + pool
+        rng.shuffle(pool[:nmac]) if False else None
+        head_ = pool[:max(nmac, 1)]
+        rng.shuffle(head_)
+        pool[:max(nmac, 1)] = head_
     for k in range(nmac):
         name = pool[k]
         if rng.random() < 0.3:
@@ -125,6 +134,9 @@ def gen_macro_case(rng, cid, nmac):
             if not ok_ or depth_ != 0:
                 body = body.replace('(', '').replace(')', '')
             body = body.strip() or '0'
+            # a call of a macro without parameters written with blanks between its parentheses, `f( )`, is an open
+            # finding with its own witness (zero_param_blank): not generated
+            body = re.sub(r'\(\s+\)', '()', body)
             ebody = expand(body, {k_: v for k_, v in macros.items() if k_ not in ps})
             macros[name] = ('fun', ps, ebody)
             lines.append('#define %s(%s) %s\n' % (name, ','.join(ps), body))
@@ -156,6 +168,8 @@ def gen_macro_case(rng, cid, nmac):
         if m and m[0] == 'fun':
             args = [rng.choice(['1', 'x', 'p+1', '(1,2)', 'f(3)', '((4))', rng.choice(names), deep_arg(rng), deep_arg(rng)]) for _ in m[1]]
             use = rng.choice(['y = %s(%s);', 'z(%s(%s))', 't%s(%s)', '%s (%s)']) % (n, ','.join(args))
+        elif not re.search('[A-Za-z]', n) and rng.random() < 0.7:
+            use = rng.choice(['%s,%s,%s,', '    %s;', '(%s)*2+%s', '{ %s, 1, %s }']).replace('%s', n)
         else:
             use = rng.choice(['a = %s;', 'b[%s]', 'x%s', '%sx', '%s_1', '"%s"', '(%s)', '%s+%s' % (n, '%s'), '-%s', 'u.%s', "'%s'"]) % n
         if '"' in use:
@@ -180,6 +194,9 @@ KNOWN_WITNESSES = {
     'deep_args': ('#define f(a) [a]\nf((((((1))))))\n', [], '[(((((1)))))]\n'),
     'comment_separates': ('#define FOO 1\nFOO/**/BAR\n', [], '1 BAR\n'),
     'char_constant_opaque': ("#define a 5\nc = 'a';\n", [], "c = 'a';\n"),
+    'underscore_name_letterless_line': ('#define _ 0\n#define X 1\n_,X,X,_,\n_,_,_,_,\n', [], '0,1,1,0,\n0,0,0,0,\n'),
+    'underscore_call_letterless_line': ('#define _1(a) (a)+_0\n#define _0 7\n    _1(_0);\n', [], '    (7)+7;\n'),
+    'zero_param_blank': ('#define f() 7\nx = f( );\n', [], 'x = 7;\n'),
     'blank_before_paren': ('#define add(a,b) a+b\nx = add (1,2);\n', [], 'x = 1+2;\n'),
     # an object-like macro whose body starts like a parameter list
     'obj_paren_body': ('#define ALIAS (other)\nx = ALIAS;\ny = ALIAS(3);\n', [], 'x = (other);\ny = (other)(3);\n'),
